@@ -91,10 +91,11 @@ const (
 )
 
 var (
-	fullPattern       *regexp.Regexp
-	arrayPattern      *regexp.Regexp
-	pipePattern       *regexp.Regexp
-	topLevelFunctions TopLevelFunction
+	fullPattern         *regexp.Regexp
+	functionNamePattern = regexp.MustCompile(`^\w*$`)
+	arrayPattern        *regexp.Regexp
+	pipePattern         *regexp.Regexp
+	topLevelFunctions   TopLevelFunction
 )
 
 func init() {
@@ -289,7 +290,9 @@ func ParsePipe(match string) ([]*PipeSelector, error) {
 func ParseSelector(selector string) ([]any, error) {
 	functions := strings.SplitN(selector, "=>", 2)
 	slice := make([]any, 0)
-	if len(functions) == 2 {
+	// an arrow that follows anything other than a bare name (e.g. `data[keep=>0]`)
+	// belongs to an array selector and is not a top level function call
+	if len(functions) == 2 && functionNamePattern.MatchString(functions[0]) {
 		selector = functions[1]
 		slice = append(slice, TopLevelFunctionSelector(functions[0]))
 	}
